@@ -111,9 +111,9 @@ def _cat() -> List[Edit]:
     ]
     # ------------------------------------------------------------------ C08
     c += [
-        E("C08", "iterate-set-of-signatures", "signature.py", "        for sig in self.signatures:\n            with visitor.catch_errors() as caught_errors:\n                bound_args = sig.bind_arguments(actual_args, ctx)", "        for sig in set(self.signatures):\n            with visitor.catch_errors() as caught_errors:\n                bound_args = sig.bind_arguments(actual_args, ctx)", "BREAK", "R08.a"),
-        E("C08", "any-match-returns-early", "signature.py", "            elif ret.used_any_for_match:\n                any_rets.append(ret)\n            else:", "            elif ret.used_any_for_match:\n                return ret.return_value\n            else:", "BREAK", "any-does-not-return"),
-        E("C08", "no-error-when-nothing-matches", "signature.py", "        detail = self._make_detail(errors_per_overload, sigs)\n        visitor.show_error(\n            node, \"Cannot call overloaded function\", error_code, detail=str(detail)\n        )\n        return AnyValue(AnySource.error)", "        detail = self._make_detail(errors_per_overload, sigs)\n        return AnyValue(AnySource.error)", "BREAK", "R08.c"),
+        E("C08", "iterate-set-of-signatures", "signature.py", "        for sig in self.signatures:\n            with visitor.catch_errors() as caught_errors:\n                bound_args = sig.bind_arguments(actual_args, ctx)", "        for sig in set(self.signatures):\n            with visitor.catch_errors() as caught_errors:\n                bound_args = sig.bind_arguments(actual_args, ctx)", "BREAK", "overload-model::"),
+        E("C08", "any-match-returns-early", "signature.py", "            elif ret.used_any_for_match:\n                any_rets.append(ret)\n            else:", "            elif ret.used_any_for_match:\n                return ret.return_value\n            else:", "BREAK", "overload-model::Any argument"),
+        E("C08", "no-error-when-nothing-matches", "signature.py", "        detail = self._make_detail(errors_per_overload, sigs)\n        visitor.show_error(\n            node, \"Cannot call overloaded function\", error_code, detail=str(detail)\n        )\n        return AnyValue(AnySource.error)", "        detail = self._make_detail(errors_per_overload, sigs)\n        return AnyValue(AnySource.error)", "BREAK", "overload-model::"),
         E("C08", "used-any-read-outside-reset", "value.py", "    with ctx.reset_any_used():\n        tv_map = param_typ.can_assign(var_value, ctx)\n        used_any = ctx.has_used_any_match()\n    return tv_map, used_any", "    with ctx.reset_any_used():\n        tv_map = param_typ.can_assign(var_value, ctx)\n    used_any = ctx.has_used_any_match()\n    return tv_map, used_any", "BREAK", "flag-read-inside-reset"),
     ]
     # ------------------------------------------------------------------ C09
@@ -300,6 +300,11 @@ def _cat() -> List[Edit]:
         E("C02", "model-is-not-uses-equality", "stacked_scopes.py", "                    isinstance(inner_value, KnownValue)\n                    and inner_value.val is self.value\n                ):\n                    yield value", "                    isinstance(inner_value, KnownValue)\n                    and inner_value.val == self.value\n                ):\n                    yield value", "BREAK", "constraint-model::is_value::negative::keeps"),
         E("C02", "model-truthy-polarity-swapped", "stacked_scopes.py", "                if not boolability.is_safely_false():\n                    yield value\n            else:\n                if not boolability.is_safely_true():", "                if not boolability.is_safely_true():\n                    yield value\n            else:\n                if not boolability.is_safely_false():", "BREAK", "constraint-model::is_truthy"),
         E("C02", "model-one-of-applies-only-first", "stacked_scopes.py", "            for constraint in self.value:\n                yield from constraint.apply_to_value(value)", "            for constraint in self.value[:1]:\n                yield from constraint.apply_to_value(value)", "BREAK", "constraint-model::one_of"),
+        E("C08", "model-remainder-not-handed-on", "signature.py", "                actual_args = ret.remaining_arguments\n", "                pass\n", "BREAK", "overload-model::union argument"),
+        E("C08", "model-any-match-returned-at-once", "signature.py", "            elif ret.used_any_for_match:\n                any_rets.append(ret)\n", "            elif ret.used_any_for_match:\n                return ret.return_value\n", "BREAK", "overload-model::Any argument never selects"),
+        E("C08", "model-error-overload-not-skipped", "signature.py", "            if ret.is_error:\n                continue\n            elif ret.remaining_arguments is not None:", "            if ret.remaining_arguments is not None:", "BREAK", "overload-model::"),
+        E("C08", "model-union-rets-dropped-on-clean-match", "signature.py", "            if clean_ret is not None:\n                rets = [*union_rets, clean_ret]", "            if clean_ret is not None:\n                rets = [clean_ret]", "BREAK", "the type contains each member's own result"),
+        E("C08", "keep-model-sigs-loop-form", "signature.py", "        last = len(sigs) - 1\n        for i, sig in enumerate(sigs):", "        last = len(sigs) - 1\n        for i in range(len(sigs)):\n            sig = sigs[i]", "KEEP"),
         E("C16", "keep-reversed-sorted", "node_visitor.py", "lines_to_remove = sorted(lines_to_remove, reverse=True)", "lines_to_remove = list(reversed(sorted(lines_to_remove)))", "KEEP"),
         E("C17", "keep-regex-class-order", "format_strings.py", "(?P<conversion_type>[diouxXeEfFgGcrs%ba])", "(?P<conversion_type>[abcdeEfFgGiorsuxX%])", "KEEP"),
         E("C18", "keep-sort-key-via-locals", "options.py", "        return (\n            not self.from_command_line,  # command line options first\n            self.priority,  # lower priority number first\n            -len(self.applicable_to),  # longest options first\n        )", "        return (\n            not self.from_command_line,\n            self.priority,\n            -len(self.applicable_to),\n        )", "KEEP"),
